@@ -464,8 +464,9 @@ class SymExec:
 
     MAX_PATHS = 4096
 
-    def __init__(self, repo, identity=(), transfers=None, keep=None, inline_modules=(), depth=4, identity_pred=None):
+    def __init__(self, repo, identity=(), transfers=None, keep=None, inline_modules=(), depth=4, identity_pred=None, drop_reshape=False):
         self.repo = repo
+        self.drop_reshape = drop_reshape  # value level: x[:, None], x.reshape(..), np.reshape(x, ..) keep the values of x
         self.identity_pred = identity_pred  # (module, FunctionDef) -> bool: proved to return its first argument
         self.identity = set(identity)
         self.transfers = dict(transfers or {})
@@ -661,7 +662,11 @@ class SymExec:
         if isinstance(e, ast.Call):
             return self._call(e, st, module, depth)
         if isinstance(e, ast.Subscript):
-            return ("idx", self.ev(e.value, st, module, depth), self.ev(e.slice, st, module, depth))
+            base, index = self.ev(e.value, st, module, depth), self.ev(e.slice, st, module, depth)
+            if self.drop_reshape and index[0] == "tuple" and index[1] and all(
+                    i in (("slice", NONE, NONE, NONE), NONE, ("f", "numpy.newaxis")) for i in index[1]):
+                return base
+            return ("idx", base, index)
         if isinstance(e, ast.Slice):
             return ("slice",) + tuple(self.ev(x, st, module, depth) if x is not None else NONE for x in (e.lower, e.upper, e.step))
         if isinstance(e, (ast.Tuple, ast.List)):
@@ -744,6 +749,8 @@ class SymExec:
         for k in e.keywords:
             kw.append((k.arg if k.arg is not None else "**", self.ev(k.value, st, module, depth)))
         callee = self.ev(e.func, st, module, depth)
+        if self.drop_reshape and callee[0] == "attr" and callee[2] == "reshape":
+            return callee[1]
         star = any(a and a[0] == "*" for a in pos) or any(k == "**" for k, _ in kw)
         if callee[0] == "f":
             d = callee[1]
